@@ -57,7 +57,7 @@ def check(ctx):
               "only the runner touches the postponed queue", "the postponed queue is accessed in %s" % sorted(qusers - {R.path}))
     # ---- pending metadata lists ----
     n = core.adopt(ctx, c03, lambda o: o["rule"] == "C03.a", "C11.prepared")
-    n += core.adopt(ctx, c02, lambda o: o["rule"] == "C02.a" and any(k in o["key"] for k in ("single-disposition", "setup-runs-before-callback", "postpone-carries")), "C11.prepared")
+    n += core.adopt(ctx, c02, lambda o: o["rule"] == "C02.a" and any(k in o["key"] for k in ("single-disposition", "dispositions=", "setup-runs-before-callback", "postpone-carries")), "C11.prepared")
     n += core.adopt(ctx, c05, lambda o: o["rule"] == "C05.d", "C11.prepared")
     ctx.floor("C11.prepared", n, 18, "shared prepare/setup obligations")
     trackers = A.tracker_types(prog)
